@@ -20,6 +20,16 @@
 //     over run afterwards, framer by framer).  Answer: the n answers joined by tab characters - each must be what
 //     the single-framer request `<spec> <capacity> <ops>` answers: framer objects are independent of each other.
 //
+//   L <spec> <capacity> <seed> <chunkseed> <maxchunk> <events> <item:item:...>
+//     LONG run of one framer object.  The stream is generated here (nothing long crosses the pipe): item number i of
+//     the stream is items[r_i % #items], r_i = i-th output of xorshift64* seeded with <seed> (the caller runs the same
+//     generator and so knows the stream).  It is fed in pieces of 1..<maxchunk> bytes (sizes from a second generator
+//     seeded with <chunkseed>; pieces cross item boundaries).  <events> is an ascending comma list of "<n>" (after n
+//     items: feed whatever is still held back, report) and "R<n>" (the same, then Reset(), then report).  Answer:
+//       L|<state>;K|<items>|<callbacks so far>|<callbacks since Reset>|<sum of OnData returns>|<sum of callback
+//       lengths>|<digest>|<state>;R|...   followed by " ok" or complaints
+//     digest: running FNV-style mix over (type, length, fnv1a64(bytes)) of every callback since the start.
+//
 // Answer: the same text the Lean model prints for `rtcm <spec> <capacity> <ops>`:
 //   C|<state>;D|<callbacks>|<return>|<state>;R|<state>;...      followed by " " and "ok" or a list of harness-side
 //   complaints (callback pointer not buffer_, not 4-byte aligned).
@@ -189,10 +199,126 @@ static std::string Finish(int index) {
   return r;
 }
 
+// ---- long runs (request form "L") ---------------------------------------------------------------------------------
+struct LongRec {
+  RTCMFramer* f = nullptr;
+  unsigned long long cbs_total = 0, cbs_since_reset = 0, cb_len_total = 0;
+  uint64_t digest = 0xcbf29ce484222325ULL;
+  std::string complaints;
+};
+static LongRec* g_long = nullptr;
+
+static void LongCallback(uint16_t type, const void* data, size_t len) {
+  LongRec* r = g_long;
+  if (r == nullptr) return;
+  const uint8_t* p = static_cast<const uint8_t*>(data);
+  uint64_t parts[3] = {type, static_cast<uint64_t>(len), Fnv64(p, len)};   // reads [data, data + len)
+  for (uint64_t x : parts) {
+    r->digest ^= x;
+    r->digest *= 0x100000001b3ULL;
+  }
+  ++r->cbs_total;
+  ++r->cbs_since_reset;
+  r->cb_len_total += len;
+  if (r->f != nullptr && p != r->f->buffer_ && r->complaints.empty()) r->complaints += "callback-pointer-not-buffer,";
+  if (reinterpret_cast<uintptr_t>(p) % 4 != 0 && r->complaints.empty()) r->complaints += "callback-pointer-misaligned,";
+}
+
+struct XorShift {
+  uint64_t x;
+  uint32_t Next() {
+    x ^= x >> 12;
+    x ^= x << 25;
+    x ^= x >> 27;
+    return static_cast<uint32_t>((x * 0x2545F4914F6CDD1DULL) >> 32);
+  }
+};
+
+static std::string RunLong(std::istringstream& in) {
+  std::string spec, events_text, items_text;
+  unsigned long long capacity = 0, seed = 0, chunkseed = 0, maxchunk = 0;
+  if (!(in >> spec >> capacity >> seed >> chunkseed >> maxchunk >> events_text >> items_text)) return "bad-args";
+  if (seed == 0 || chunkseed == 0 || maxchunk == 0) return "bad-args";
+  std::vector<std::vector<uint8_t>> items;
+  {
+    std::istringstream is(items_text);
+    std::string it;
+    while (std::getline(is, it, ':')) {
+      std::vector<uint8_t> b;
+      if (it.empty() || !ParseHex(it, &b)) return "bad-args";
+      items.push_back(b);
+    }
+  }
+  if (items.empty()) return "bad-args";
+  Unit blocks;   // owner of a caller-supplied buffer
+  LongRec rec;
+  if (spec == "i") {
+    rec.f = new RTCMFramer(static_cast<size_t>(capacity));
+  } else if (spec.size() >= 2 && spec[0] == 'u') {
+    size_t k = strtoull(spec.c_str() + 1, nullptr, 10);
+    rec.f = new RTCMFramer(UserBuffer(&blocks, k, capacity), static_cast<size_t>(capacity));
+  } else {
+    return "bad-args";
+  }
+  g_long = &rec;
+  rec.f->SetMessageCallback(LongCallback);
+  std::ostringstream out;
+  out << "L|" << StateText(*rec.f);
+  XorShift gen{seed}, cgen{chunkseed};
+  std::vector<uint8_t> pend;
+  size_t pend_off = 0;
+  unsigned long long n_items = 0, ret_total = 0;
+  size_t next_chunk = 1 + cgen.Next() % maxchunk;
+  auto feed = [&](size_t n) {
+    uint8_t* copy = static_cast<uint8_t*>(malloc(n == 0 ? 1 : n));   // exact-size block
+    memcpy(copy, pend.data() + pend_off, n);
+    ret_total += rec.f->OnData(copy, n);
+    free(copy);
+    pend_off += n;
+    if (pend_off == pend.size()) {
+      pend.clear();
+      pend_off = 0;
+    }
+  };
+  bool bad = false;
+  std::istringstream es(events_text);
+  std::string ev;
+  while (std::getline(es, ev, ',')) {
+    bool reset = !ev.empty() && ev[0] == 'R';
+    unsigned long long target = strtoull(ev.c_str() + (reset ? 1 : 0), nullptr, 10);
+    if (target < n_items) { bad = true; break; }
+    while (n_items < target) {
+      const std::vector<uint8_t>& it = items[gen.Next() % items.size()];
+      pend.insert(pend.end(), it.begin(), it.end());
+      ++n_items;
+      while (pend.size() - pend_off >= next_chunk) {
+        feed(next_chunk);
+        next_chunk = 1 + cgen.Next() % maxchunk;
+      }
+    }
+    if (pend.size() > pend_off) feed(pend.size() - pend_off);
+    if (reset) {
+      rec.f->Reset();
+      rec.cbs_since_reset = 0;
+    }
+    out << ";" << (reset ? "R" : "K") << "|" << n_items << "|" << rec.cbs_total << "|" << rec.cbs_since_reset << "|"
+        << ret_total << "|" << rec.cb_len_total << "|" << rec.digest << "|" << StateText(*rec.f);
+  }
+  RTCMFramer* f = rec.f;
+  rec.f = nullptr;
+  g_long = nullptr;
+  delete f;
+  for (void* b : blocks.blocks) free(b);
+  if (bad) return "bad-args";
+  std::string complaints = blocks.complaints + rec.complaints;
+  return out.str() + " " + (complaints.empty() ? "ok" : complaints);
+}
+
 static std::string RunLine(const std::string& line) {
   std::istringstream in(line);
   std::string first;
   if (!(in >> first)) return "bad-args";
+  if (first == "L") return RunLong(in);
   if (first == "M") {
     // Several framers alive at once: all are constructed, then the schedule says whose next operation runs, then
     // whatever is left runs unit by unit, then all are destroyed.  One answer text per unit, joined by tabs.
